@@ -71,7 +71,8 @@ def required(tier):
             "amap_ops": 5000, "amap_flushes": 20, "amap_hits": 1000, "ped_cache_entries_checked": 300,
             "call_cache_entries_checked": 200, "ped_unequal_read_runs": 10, "tempered_runs": 5, "call_cache_high_ploidy_runs": 3,
             "cli_threshold_settings_compared": 12, "cli_records_compared": 60, "cli_tempered_settings": 2,
-            "refit_assemble_compared": 15, "refit_pedigree_compared": 15, "refit_llk_cells_checked": 1000}
+            "refit_assemble_compared": 15, "refit_pedigree_compared": 15, "refit_llk_cells_checked": 1000,
+            "cold_only_traces_checked": 20}
 
 
 # ---------------------------------------------------------------------------
@@ -236,6 +237,24 @@ def run_trace(tier, seed, spec, col):
                         bad = True
                         break
                 if bad:
+                    break
+        # the cold-chain-only trace (what DenovoMCMC.fit keeps: return_heated_trace=False) is a separate recording path:
+        # it must be the cold slice of the all-temperatures trace, likelihoods included
+        for thr in (-1, 0):
+            g_c, l_c = run_assembler(I, steps, thr, s, heated=False)
+            g_c, l_c = np.asarray(g_c)[0], np.asarray(l_c)[0]   # shape (1, steps, ...): the only row is the cold chain
+            col.count("cold_only_traces_checked")
+            gh, lh = (g_off, l_off) if thr == -1 else (g_on, l_on)
+            # the cold chain is the LAST temperature of the heated trace (temperatures ascend to 1.0)
+            if g_c.shape != gh[-1].shape or not np.array_equal(g_c, gh[-1]):
+                col.violation("cold-trace-differs-from-heated-trace", "cold-only genotype trace differs from the T=1 slice of the all-temperatures trace (cache %s, seed %d)" % (thr, s), rep)
+                continue
+            for i in range(g_c.shape[0]):
+                col.count("trace_cells_checked")
+                want = orc.llk(g_c[i])
+                if not llk_close(float(l_c[i]), want):
+                    col.violation("carried-likelihood-differs-from-recomputed", "assemble cold-only trace (cache threshold %d, %d temperatures) step %d: traced llk %.12g, genotype has %.12g"
+                                  % (thr, len(I["temps"]), i, l_c[i], want), rep)
                     break
         # M2: resized caches force flushes; all trajectories identical
         m2_steps = min(steps, 60 if tier == "quick" else 150)
